@@ -585,8 +585,18 @@ for k, ed in enumerate(cfg["editions"]):
                 exec(compile(ed["files"][mod], fname, "exec"), mods[mod].__dict__)
             else:
                 importlib.reload(mods[mod])
-        for mod, name, value in ed.get("setattrs", []):
-            setattr(mods[mod], name, value)
+        for sa in ed.get("setattrs", []):
+            mod, name, value = sa[0], sa[1], sa[2]
+            cur = getattr(mods[mod], name, None)
+            if len(sa) > 3 and sa[3] == "mutate" and type(cur) is type(value) and isinstance(cur, (list, dict)):
+                # the edit is made IN PLACE: the name stays bound to the same object
+                if isinstance(cur, list):
+                    cur[:] = value
+                else:
+                    cur.clear()
+                    cur.update(value)
+            else:
+                setattr(mods[mod], name, value)
         for si, (mod, src) in enumerate(ed.get("snippets", [])):
             # a new definition executed on its own in the module's namespace (nothing else is re-executed)
             import linecache
